@@ -75,6 +75,8 @@ class A(Adapter):
 
     def build(self, c):
         from jumanji.environments import Tetris
+        if c.get("tl") == 2:
+            return Tetris(c["r"], c["c"], c["tl"])  # (time_limit = 2 configurations pass the documented leading parameters positionally)
         kw = {} if c.get("tl") is None else {"time_limit": c["tl"]}
         return Tetris(num_rows=c["r"], num_cols=c["c"], **kw)
 
